@@ -158,7 +158,7 @@ C01_OPS = ["ref", "ref", "ref", "refprefix", "stale", "append", "append", "exten
            "fiber_iadd_s", "fiber_imul_s", "fiber_iadd_f", "fiber_imul_f", "fiber_ilshift", "populate", "populate",
            "iterref", "iterref", "updateCoords", "updatePayloads", "clear", "get", "insertlookup"]
 C02_OPS = ["ref", "ref", "ref", "refprefix", "refprefix", "get", "get", "populate", "populate", "populate", "iterref",
-           "iterref", "coiterref", "fiber_ilshift", "clear", "coiter_read", "coiter_read", "stale", "insertlookup", "insertlookup"]
+           "iterref", "coiterref", "fiber_ilshift", "clear", "coiter_read", "coiter_read", "stale", "insertlookup", "insertlookup", "setroot"]
 
 
 def gen_ops(rng, init, n, alphabet, interior_removal=True):
@@ -177,6 +177,8 @@ def gen_ops(rng, init, n, alphabet, interior_removal=True):
             op.update(pt=pt[:rng.randint(1, max(1, depth - 1))] if depth > 1 else pt)
         elif kind == "get":
             op.update(pt=pt[:rng.randint(1, depth)], allocate=rng.random() < 0.6)
+        elif kind == "setroot":
+            op.update(shape=rng.choice(["empty", "empty-first-child", "full", "full"]))
         elif kind == "insertlookup":
             op.update(c=rng.randint(0, 7), v=rng.choice([None, None, 3]), then=rng.choice([None, "insert", "ref"]), c2=rng.randint(0, 4))
         elif kind == "stale":
@@ -373,6 +375,23 @@ def apply_op(ctx, op):
         if c < 0:
             return "skip"
         f.append(c, v)
+        return
+    if kind == "setroot":
+        # re-rooting a populated tensor: by an empty fiber (a reset), by a tree whose first sub-fiber is empty, by a full tree
+        if ctx.tensor is None or any(isinstance(i, list) for i in ctx.tensor.getRankIds()):
+            return "skip"
+        if op["shape"] == "empty":
+            new = Fiber()
+        else:
+            sp = ctx.subspec(op["seed"], 0)
+            if not sp:
+                return "skip"
+            if op["shape"] == "empty-first-child" and depth > 1:
+                sp = [[sp[0][0], []]] + sp[1:]
+            new = gen.fiber_from_spec(sp, d)
+        ctx.tensor.setRoot(new)
+        ctx.root = ctx.tensor.getRoot()
+        ctx.held = []
         return
     if kind == "insertlookup":
         # the deprecated (still public) insert-or-lookup wrapper: a missing coordinate gets the level's default payload
